@@ -117,6 +117,9 @@ def run(ctx, rep):
     rep.floor("IN", "grammar actions feeding this rule", common_g.emit_inputs(ctx, rep, "C07"), 5)
     import loopstate
     loopstate.rule(ctx, rep, "C07", ['validation::check_method_args', 'validation::check_methods', 'validation::get_requirement_for_arg_direction'])
+    rep.rule("T1", "inherits C10 T1 (re-evaluated here): in a oneway interface every method is oneway by the time its arguments are checked - the oneway column of the direction table is the propagated flag")
+    import c10
+    c10.propagation_rule(ctx, rep, "C07")
     import pipeline
     pipeline.rule(ctx, rep, "C07", ['resolve_types', 'check_methods'])
     rep.assumptions += ["TB-1 rustc MIR", "TB-4 the tabulator (validated by selftest mutants)",
